@@ -155,8 +155,9 @@ def showResult (st : DSt) (cfg : Cfg) (voters : List Voter) (names : List (List 
 
 /-- a vote of a fresh, un-stubbed colony (does not touch the driver's own colony) -/
 def realVoteLine (st : DSt) (cfg : Cfg) (voters : List Voter) : DSt × String :=
-  if runVoteRaises cfg voters then (st, s!"raise:ZeroDivisionError ## real:{showStrategy cfg.strategy}:raise")
-  else (st, showResult {} cfg voters ((List.range voters.length).map builtinName) (runVote cfg voters) "real:")
+  match runVoteE cfg voters with
+  | none => (st, s!"raise:ZeroDivisionError ## real:{showStrategy cfg.strategy}:raise")
+  | some r => (st, showResult {} cfg voters ((List.range voters.length).map builtinName) r "real:")
 
 /-- a vote of the driver's colony, through `stepOp` -/
 def voteLine (st : DSt) (cfg : Cfg) (toks : List Tok) : DSt × String :=
